@@ -102,6 +102,13 @@ def gen_harnesses(tier, seed):
        "a: int, k: int", "((a,), (a, a))[k % 2]", None, extra_static=("tuple", "object"), warm=("((1, 2),)", "((1, 'a'),)", "(1,)"))
     vm("c11_dep_and_static_in_union", [("(Regexp['a'] & str) | int", "(isinstance(v, str) and _re.search('a', v) is not None) or isinstance(v, int)")],
        "a: int, s: str, k: int", "(a, s)[k % 2]", "len(s) <= 2", prelude=PRE, extra_static=("object",), warm=("3", "'a'", "'b'"))
+    vm("c11_subclass_and_dep_in_union", [("(MyS & EndsWith['z']) | StartsWith['a']", "(isinstance(v, MyS) and v.endswith('z')) or (isinstance(v, str) and v.startswith('a'))")],
+       "s: str, k: int", "(s, MyS(s))[k % 2]", "len(s) <= 2", prelude=PRE + "\nclass MyS(str):\n    pass", extra_static=("str", "object"),
+       warm=("'bz'", "'az'", "'b'", "MyS('bz')", "MyS('b')", "MyS('ab')"))
+    vm("c11_equals_object_bound", [("Dependent[object, Equals(1)]", "v == 1"), ("Dependent[object, Equals(2)]", "v == 2"), ("Dependent[object, Equals(3)]", "v == 3"),
+                                   ("Dependent[object, Equals('a')]", "v == 'a'"), ("Dependent[object, Equals('b')]", "v == 'b'")],
+       "a: int, s: str, k: int", "(a, s, [a], {s: a}, [s, a])[k % 5]", "len(s) <= 2", prelude=PRE + "\nfrom ovld.dependent import Equals", extra_static=("object",),
+       warm=("1", "2", "'a'", "[1]", "{'a': 1}"))
     vm("c11_tuple_ellipsis", [("tuple[int, ...]", "isinstance(v, tuple) and (not v or isinstance(v[0], int))")],
        "a: int, s: str, k: int", "((a,), (a, a, a), (s, a), (), (a, s))[k % 5]", "len(s) <= 2", extra_static=("tuple", "object"),
        warm=("(1,)", "(1, 2, 3)", "('a', 1)", "()"))
